@@ -548,15 +548,23 @@ pub fn c14(tier: Tier) -> i32 {
     }
 
     // ---- directory resolution: --path {absent, dirA, ./contracts, contracts} x --toml {absent, path=dirB, path=./contracts} x ./contracts {exists, absent}
-    let mut res_cases: Vec<(Option<&str>, Option<&str>, bool)> = Vec::new();
+    //      x where the configuration file lies {working directory, a sub-directory named relatively / absolutely}:
+    //      relative paths are relative to the working directory wherever the configuration file is; the
+    //      sub-directory holds directories of the same names with other files, so a wrong base shows
+    let mut res_cases: Vec<(Option<&str>, Option<&str>, bool, &str)> = Vec::new();
     for flag in [None, Some("dirA"), Some("./contracts"), Some("contracts"), Some("./dirA")] {
         for tomlp in [None, Some("dirB"), Some("./contracts"), Some("./dirB")] {
             for contracts in [true, false] {
-                res_cases.push((flag, tomlp, contracts));
+                for loc in ["cwd", "sub-relative", "sub-absolute"] {
+                    if tomlp.is_none() && loc != "cwd" {
+                        continue;
+                    }
+                    res_cases.push((flag, tomlp, contracts, loc));
+                }
             }
         }
     }
-    for (flag, tomlp, contracts) in &res_cases {
+    for (flag, tomlp, contracts, loc) in &res_cases {
         let root = scratch("c14dir");
         let mk = |d: &str, file: &str| {
             std::fs::create_dir_all(root.join(d)).unwrap();
@@ -572,10 +580,20 @@ pub fn c14(tier: Tier) -> i32 {
             args.push("--path".into());
             args.push(f.to_string());
         }
+        if *loc != "cwd" {
+            mk("conf/dirA", "InConfA.sol");
+            mk("conf/dirB", "InConfB.sol");
+            mk("conf/contracts", "InConfContracts.sol");
+        }
         if let Some(tp) = tomlp {
-            write_toml(&root.join("cfg.toml"), tp, &[], &["floating_pragma".to_string()], &[]);
+            let (file, arg) = match *loc {
+                "cwd" => (root.join("cfg.toml"), "cfg.toml".to_string()),
+                "sub-relative" => (root.join("conf").join("cfg.toml"), "conf/cfg.toml".to_string()),
+                _ => (root.join("conf").join("cfg.toml"), root.join("conf").join("cfg.toml").to_string_lossy().to_string()),
+            };
+            write_toml(&file, tp, &[], &["floating_pragma".to_string()], &[]);
             args.push("--toml".into());
-            args.push("cfg.toml".into());
+            args.push(arg);
         }
         let expect_dir: Option<&str> = match (flag, tomlp) {
             (Some(f), _) => Some(f.trim_start_matches("./")),
@@ -592,7 +610,7 @@ pub fn c14(tier: Tier) -> i32 {
         let out = run_bin(&bin, &root, &argrefs);
         bin_runs += 1;
         let rep = std::fs::read_to_string(root.join("solstat_report.md"));
-        let label = format!("--path {:?} toml-path {:?} ./contracts exists: {}", flag, tomlp, contracts);
+        let label = format!("--path {:?} toml-path {:?} ./contracts exists: {} configuration file: {}", flag, tomlp, contracts, loc);
         match expect_file {
             Some(f) => {
                 let names: Vec<String> = rep.as_ref().map(|r| report::parse_report(r, &tb).entries.values().flatten().map(|e| e.0.clone()).collect()).unwrap_or_default();
@@ -609,12 +627,15 @@ pub fn c14(tier: Tier) -> i32 {
                 }
             }
             None => {
-                if out.code == Some(0) || rep.is_ok() {
+                // the resolved directory does not exist: the property does not say whether that is an error or an
+                // empty analysis, only that no OTHER directory is analysed instead
+                let names: Vec<String> = rep.as_ref().map(|r| report::parse_report(r, &tb).entries.values().flatten().map(|e| e.0.clone()).collect()).unwrap_or_default();
+                if !names.is_empty() {
                     run.violation(Violation {
-                        site: "binary:directory:missing-directory-not-an-error".into(),
+                        site: "binary:directory:another-directory-analysed-instead-of-the-missing-one".into(),
                         input: label,
-                        expected: "the run fails without writing a report when the resolved directory does not exist".into(),
-                        observed: format!("exit {:?}, report written: {}", out.code, rep.is_ok()),
+                        expected: "no findings from any other directory when the resolved directory does not exist".into(),
+                        observed: format!("exit {:?}, files in the report: {:?}", out.code, names),
                         size: 1,
                         unit_test: String::new(),
                         extra: json!({}),
